@@ -5,7 +5,7 @@
    for n > 30 it is [qci_normal band n c l1 r1] where l1 = norm.InvCDF((1-c)/2), r1 = 2 mu - l1 and
    band l r = Phi(r - 1/2) - Phi(l - 1/2) for the CDF Phi of the approximating normal. *)
 From MM Require Import Base.Num Base.GFSum Model.Choose Model.Binom Model.QuantileCI Check.C06 Check.C11
-                       Proofs.Binom Proofs.QuantileCI Proofs.QuantileCISet Proofs.QuantileCIScale Proofs.QuantileCILaws.
+                       Proofs.Binom Proofs.QuantileCI Proofs.QuantileCISet Proofs.QuantileCIScale Proofs.QuantileCILaws Proofs.QuantileCIExact.
 From Coq Require Import Sorted Permutation.
 Local Open Scope Q_scope.
 
@@ -223,6 +223,22 @@ Theorem C11_comparator_set_contains_model : forall (n : nat) (q : Q), 0 <= q <= 
              r_conf r' == inject_Z (d ^ N) * r_conf r.
 Proof. exact comparator_outs_contain_model. Qed.
 Print Assumptions C11_comparator_set_contains_model.
+
+(* ... and with the window switched off (the float-exact regime: n <= 20, q dyadic with e n <= 52, where
+   every float operation of the Go loop is exact) that set is EXACTLY ONE outcome, the model's: the
+   comparator is strict there (left bias, Ambiguous flags, stopping rule at exact ties). *)
+Theorem C11_comparator_set_exact : forall (n : nat) (q : Q), 0 <= q <= 1 ->
+  let N := Z.of_nat n in
+  let d := Zpos (Qden q) in
+  let Pw := scaled_pmf N (binom_weights N (Qnum q) (d - Qnum q)) in
+  forall e c g r, (0 <= e)%Z -> d = Z.shiftl 1 e ->
+  qci_graph Pw 0 N (mode_candidates N q true) = Some g ->
+  qci_small (binom_pmf_i N q) N (mode_x N q) c = Some r ->
+  exists r', small_outs Pw N g e true c = [r'] /\
+             r_lo r' = r_lo r /\ r_hi r' = r_hi r /\ r_amb r' = r_amb r /\
+             r_conf r' == inject_Z (d ^ N) * r_conf r.
+Proof. exact comparator_outs_exact. Qed.
+Print Assumptions C11_comparator_set_exact.
 
 (* ---------- non-vacuity ---------- *)
 Example C11_small_example :
